@@ -42,8 +42,21 @@ const PROOF: &[&str] = &[
     "newest-one-short",
 ];
 
+/// An index below `n`: in large sets preferably right at a multiple of 16 (where an
+/// implementation working in batches would start a new batch).
+fn boundary_index(rng: &mut Rng, n: usize) -> usize {
+    let edges: Vec<usize> = [15usize, 16, 31, 32].iter().cloned().filter(|i| *i < n).collect();
+    if !edges.is_empty() && rng.chance(2, 3) {
+        *rng.pick(&edges)
+    } else {
+        rng.usize(n)
+    }
+}
+
 fn gen_candidate(rng: &mut Rng, ring: &mut KeyRing, m: &GwModel, class: &str) -> Option<MSigners> {
-    let mut s = gen_wellformed_set(rng, ring, 5);
+    // one candidate in six is a large set (17..40 signers)
+    let max_n = if rng.chance(1, 6) { 40 } else { 5 };
+    let mut s = gen_wellformed_set(rng, ring, max_n);
     match class {
         "fresh" => {}
         "fresh-total-max" => {
@@ -61,9 +74,15 @@ fn gen_candidate(rng: &mut Rng, ring: &mut KeyRing, m: &GwModel, class: &str) ->
             s.signers.clear();
         }
         "adjacent-equal-keys" => {
-            let k = rng.usize(s.signers.len());
-            let d = s.signers[k].clone();
-            s.signers.insert(k, d);
+            let k = boundary_index(rng, s.signers.len());
+            let mut d = s.signers[k].clone();
+            // the repeated entry carries the same, a higher or a lower weight
+            match rng.below(3) {
+                0 => {}
+                1 => d.weight = d.weight.saturating_add(1 + rng.below(5) as u128),
+                _ => d.weight = (d.weight / 2).max(1),
+            }
+            s.signers.insert(k + 1, d);
             // keep the threshold reachable so that only the key order is wrong
         }
         "descending-pair" => {
@@ -72,11 +91,11 @@ fn gen_candidate(rng: &mut Rng, ring: &mut KeyRing, m: &GwModel, class: &str) ->
                 s.signers.push(MSigner { key: pk, weight: 1 });
                 s.signers.sort_by(|a, b| a.key.cmp(&b.key));
             }
-            let k = rng.usize(s.signers.len() - 1);
+            let k = boundary_index(rng, s.signers.len() - 1);
             s.signers.swap(k, k + 1);
         }
         "zero-weight" => {
-            let k = rng.usize(s.signers.len());
+            let k = boundary_index(rng, s.signers.len());
             // keep threshold <= remaining total where possible
             s.signers[k].weight = 0;
             let tot: u128 = s.signers.iter().map(|x| x.weight).fold(0u128, |a, b| a.saturating_add(b));
